@@ -19,6 +19,16 @@ def set_keys(k):
     KEYS.update(k)
 
 
+BASE_SECP = ["k1", "k2", "k3", "k4"]
+BASE_ED = ["e1", "e2"]
+
+
+def set_pool(names):
+    """extend the signer pools with further (seed-determined) keys; the first entries stay the fixed test keys"""
+    SECP_SIGNERS[:] = BASE_SECP + [n for n in names if n.startswith("k:")]
+    ED_SIGNERS[:] = BASE_ED + [n for n in names if n.startswith("e:")]
+
+
 def scheme_of(signer):
     return "secp" if signer.startswith("k") else "ed"
 
